@@ -454,7 +454,11 @@ func ruleR20c(h *H) {
 	h.Rule(rule, "K13", "in a callback that starts with an early return on `counter == 0`, every close of the result channel is followed, on every path to the exit, by counter being 0 (stored 0 with no later change, or established by the guard)", 2)
 	n := 0
 	for _, fn := range h.P.Funcs {
-		if fn.Parent() == nil || ir.RelPkg(ir.PkgPathOf(fn)) != "oxia" {
+		if ir.RelPkg(ir.PkgPathOf(fn)) != "oxia" {
+			continue
+		}
+		// a function literal, or (the same callback written as a method of a state struct) a method
+		if fn.Parent() == nil && fn.Signature.Recv() == nil {
 			continue
 		}
 		// closes in this closure
@@ -470,20 +474,44 @@ func ruleR20c(h *H) {
 			continue
 		}
 		// the guard variable: a captured int compared with 0 on an early return at the top
-		var guard *ssa.FreeVar
+		// ... or, in the method form, an int field of the receiver's state struct
+		var guardFV *ssa.FreeVar
+		guardField := -1
 		for _, fv := range fn.FreeVars {
 			if pt, ok := fv.Type().(*types.Pointer); ok && pt.Elem().String() == "int" {
-				guard = fv
+				guardFV = fv
 			}
 		}
-		if guard == nil {
-			continue
+		isGuardAddr := func(a ssa.Value) bool {
+			if guardFV != nil {
+				return a == ssa.Value(guardFV)
+			}
+			fa, ok := a.(*ssa.FieldAddr)
+			return ok && guardField >= 0 && fa.Field == guardField && len(fn.Params) > 0 && fa.X == ssa.Value(fn.Params[0])
 		}
 		isGuardLoad := func(v ssa.Value) bool {
 			u, ok := v.(*ssa.UnOp)
-			return ok && u.Op == token.MUL && u.X == ssa.Value(guard)
+			return ok && u.Op == token.MUL && isGuardAddr(u.X)
 		}
-		zeroEdges := ir.EdgesWhere(fn, func(c ir.Cmp) bool { return c.Op == token.EQL && isGuardLoad(c.L) && isZero(c.R) })
+		var zeroEdges map[ir.Edge]bool
+		if guardFV != nil {
+			zeroEdges = ir.EdgesWhere(fn, func(c ir.Cmp) bool { return c.Op == token.EQL && isGuardLoad(c.L) && isZero(c.R) })
+		} else if fn.Parent() == nil && len(fn.Params) > 0 {
+			if pt, ok := fn.Params[0].Type().Underlying().(*types.Pointer); ok {
+				if st, ok := pt.Elem().Underlying().(*types.Struct); ok {
+					for i := 0; i < st.NumFields() && len(zeroEdges) == 0; i++ {
+						if st.Field(i).Type().String() != "int" {
+							continue
+						}
+						guardField = i
+						zeroEdges = ir.EdgesWhere(fn, func(c ir.Cmp) bool { return c.Op == token.EQL && isGuardLoad(c.L) && isZero(c.R) })
+						if len(zeroEdges) == 0 {
+							guardField = -1
+						}
+					}
+				}
+			}
+		}
 		if len(zeroEdges) == 0 {
 			continue
 		}
@@ -501,7 +529,7 @@ func ruleR20c(h *H) {
 				for e := range zeroEdges {
 					if r, _ := ir.Reach(ir.Search{FromBlock: e.To, Barrier: ir.Is(cl)}, func(in ssa.Instruction) bool {
 						st, ok := in.(*ssa.Store)
-						return ok && st.Addr == ssa.Value(guard)
+						return ok && isGuardAddr(st.Addr)
 					}); r {
 						established = false
 					}
@@ -530,7 +558,7 @@ func ruleR20c(h *H) {
 					reached := false
 					for i := cur.from; i < len(cur.b.Instrs); i++ {
 						x := cur.b.Instrs[i]
-						if s, ok := x.(*ssa.Store); ok && s.Addr == ssa.Value(guard) {
+						if s, ok := x.(*ssa.Store); ok && isGuardAddr(s.Addr) {
 							z = isZero(s.Val)
 						}
 						if x == in {
